@@ -93,6 +93,12 @@ typedef struct console {
 
 	const console_cmd_t *cmd;
 	pt_t pt;
+
+	/*!
+	 * Progress of console_eval(). This cannot live in the scratch
+	 * buffers because they are cleared every time a prompt is issued.
+	 */
+	uint16_t evalp;
 } console_t;
 
 /*!
